@@ -1199,7 +1199,24 @@ fn copy_prop_reverse(
             })
             .unwrap_or(true);
 
-        if source_uses_not_clobbered && destination_uses_not_clobbered {
+        // For every definition (store) of the source symbol:
+        //   starting from this memcpy, walk backwards till we reach the definition,
+        //   checking if there's a store to an alias of the destination symbol in that path.
+        //   After the replacement the definition writes to the destination symbol itself,
+        //   so such a store would overwrite the value before it gets used.
+        let source_defs_not_clobbered = stores_map
+            .get(&src_sym)
+            .map(|defs| {
+                defs.iter().all(|def_val| {
+                    *def_val == inst || !is_clobbered(context, def_val, &inst, &src_ptr, &dst_ptr)
+                })
+            })
+            .unwrap_or(true);
+
+        if source_uses_not_clobbered
+            && destination_uses_not_clobbered
+            && source_defs_not_clobbered
+        {
             candidates.push((inst, dst_sym, src_sym));
         }
     }
